@@ -54,6 +54,10 @@
 //!   memof <sig>                        `ArcMemo::from(ArcRwSignal / ArcReadSignal)` (arena signals are converted first): a memo with
 //!                                      body `R<sig>` whose closure the harness cannot instrument: its own runs are not listed
 //!                                      in `runs=` (both sides); its version for the justification oracle = value changes of <sig>
+//!   selc <K> <expr>                    `Selector::new_with_fn(source, |key, v| v == key || v == key + 1)` (a comparator that is not
+//!                                      equality: a key matches two adjacent values), 2 <= K <= 8: K+2 consecutive ids: key nodes
+//!                                      0..K-1, one hidden node (the model keeps the previous value there; not readable), the
+//!                                      selector node.  `eruns=` lists a `selc` selector's runs without the values it read
 //!   oncl                               every effect run registers one `on_cleanup` (C02 prints ` cl=<node>:<calls>,…`)
 //!   set <id> <v> | sset <slice> <v> | read <id> | poll <i> | idle
 //! <expr> prefix tokens: L<n> | R<id> (tracked read) | U<id> (read under untrack) |
@@ -282,7 +286,18 @@ pub struct Shared {
     pub onclr: Option<usize>,
     /// `memof` nodes: the signal they mirror
     pub from_of: Vec<Option<usize>>,
+    /// selector nodes made by `selc`
+    pub selc: Vec<usize>,
 }
+
+/// the `selc` comparator
+pub fn selc_f(key: i64, v: i64) -> bool {
+    v == key || v == key + 1
+}
+
+/// no previous value yet
+pub const SELC_NONE: i64 = -1000;
+
 
 impl Shared {
     /// move the executor's wake log into `wakes` (into the open selector segment, if any)
@@ -434,7 +449,15 @@ pub fn scratch_deep(defs: &[Def], env: &[i64], excused: &dyn Fn(usize) -> bool, 
             if excused(*s) {
                 env[id]
             } else {
-                (scratch_deep(defs, env, excused, *s) == *j) as i64
+                let v = scratch_deep(defs, env, excused, *s);
+                // `selc` keys are stored as 1000 + key, the hidden node as -1
+                if *j >= 1000 {
+                    selc_f(*j - 1000, v) as i64
+                } else if *j < 0 {
+                    env[id]
+                } else {
+                    (v == *j) as i64
+                }
             }
         }
         Some(Def::Memo(b)) | Some(Def::Eff(b)) => eval_deep(defs, env, excused, b),
@@ -919,11 +942,25 @@ fn end_run(sh: &Sh, id: usize, v: i64) {
     if let Some(Some((first, k))) = g.sel.get(id).cloned() {
         // the selector's source returned `v`: from now on `selected(j)` must answer `j == v`; the notifications that
         // follow (old key, new key, in hash-map order) form one wake segment
-        for j in 0..k {
-            let flag = (v == j as i64) as i64;
-            if g.env[first + j] != flag {
-                g.env[first + j] = flag;
-                g.ver[first + j] += 1;
+        if g.selc.contains(&id) {
+            // `new_with_fn`: when the value changed, every key that matches the old or the new value is notified
+            // (whether or not its answer flips): that is what justifies a re-run of its readers
+            let prev = g.env[first + k];
+            for j in 0..k {
+                let (new, old) = (selc_f(j as i64, v), prev != SELC_NONE && selc_f(j as i64, prev));
+                g.env[first + j] = new as i64;
+                if v != prev && (new || old) {
+                    g.ver[first + j] += 1;
+                }
+            }
+            g.env[first + k] = v;
+        } else {
+            for j in 0..k {
+                let flag = (v == j as i64) as i64;
+                if g.env[first + j] != flag {
+                    g.env[first + j] = flag;
+                    g.ver[first + j] += 1;
+                }
             }
         }
         g.sync_wakes();
@@ -1195,16 +1232,35 @@ impl Case {
 
     /// `sel K expr`: ids first..first+K-1 are the key nodes, first+K the selector node
     pub fn define_sel(&mut self, k: usize, b: Expr) {
+        self.define_sel_with(k, b, false)
+    }
+
+    /// `custom`: `selc` (comparator `selc_f`, one hidden node between the keys and the selector node)
+    pub fn define_sel_with(&mut self, k: usize, b: Expr, custom: bool) {
         let first = self.sh.lock().unwrap().defs.len();
-        let node = first + k;
+        let node = first + k + custom as usize;
         for j in 0..k {
-            self.push_entry(Def::Key(node, j as i64), Handle::Eff, Reader::Direct, None, None);
+            let tag = if custom { 1000 + j as i64 } else { j as i64 };
+            self.push_entry(Def::Key(node, tag), Handle::Eff, Reader::Direct, None, None);
+        }
+        if custom {
+            self.push_entry(Def::Key(node, -1), Handle::Eff, Reader::Direct, None, None);
+            let mut g = self.sh.lock().unwrap();
+            g.env[first + k] = SELC_NONE;
+            g.dropped.push(first + k);
+            g.selc.push(node);
         }
         self.push_entry(Def::Eff(b.clone()), Handle::Eff, Reader::Direct, None, Some((first, k)));
         // under its own child owner like every effect (root pause / resume reaches it)
         let child = self.owner.child();
         let sh = self.sh.clone();
-        let sel = child.with(|| Selector::new(move || invoke(&sh, node, &b)));
+        let sel = child.with(|| {
+            if custom {
+                Selector::new_with_fn(move || invoke(&sh, node, &b), |key: &i64, v: &i64| selc_f(*key, *v))
+            } else {
+                Selector::new(move || invoke(&sh, node, &b))
+            }
+        });
         let wrap = self.wrap;
         let readers: Vec<Reader> = self.owner.with(|| {
             (0..k)
